@@ -564,6 +564,62 @@ func c15UnreadableLink(dotu bool, errno syscall.Errno) Scenario {
 	}}
 }
 
+// c15ClientLongEntries: Clnt File.Readdir(0) over a directory whose entries range from
+// tiny to as large as the host allows (symbolic links with targets up to PATH_MAX - 1
+// bytes): the complete set, at an msize that can carry the largest one.
+func c15ClientLongEntries(msize uint32, dotu bool) Scenario {
+	name := fmt.Sprintf("client Readdir(0) with entries up to PATH_MAX msize=%d dotu=%v", msize, dotu)
+	return Scenario{Name: name, Run: func(rc *RunCtx) *Result {
+		res := &Result{Exhaustive: true}
+		base, root := scratchDir("c15c")
+		defer os.RemoveAll(base)
+		os.MkdirAll(filepath.Join(root, "dir"), 0o755)
+		var want []string
+		for i, t := range []int{1, 100, 1000, 3000, 4000, 4090, 4095, 2047, 2048} {
+			var tb []byte
+			for len(tb) < t {
+				if len(tb)%200 == 199 {
+					tb = append(tb, '/')
+				} else {
+					tb = append(tb, 'x')
+				}
+			}
+			n := fmt.Sprintf("l%d", i)
+			if os.Symlink(string(tb), filepath.Join(root, "dir", n)) == nil {
+				want = append(want, n)
+			}
+		}
+		os.WriteFile(filepath.Join(root, "dir", "a"), []byte("a"), 0o644)
+		want = append(want, "a")
+		sort.Strings(want)
+		bad := withUfsClient(root, msize, dotu, func(c *go9p.Clnt, h *SrvH) string {
+			f, err := c.FOpen("dir", go9p.OREAD)
+			if err != nil {
+				return "FOpen: " + err.Error()
+			}
+			ds, err := f.Readdir(0)
+			res.Evals++
+			if err != nil {
+				return fmt.Sprintf("File.Readdir(0) of a directory with entries of up to about 4170 bytes (msize %d): %v", msize, err)
+			}
+			var got []string
+			for _, d := range ds {
+				got = append(got, d.Name)
+			}
+			sort.Strings(got)
+			if strings.Join(got, ",") != strings.Join(want, ",") {
+				return fmt.Sprintf("File.Readdir(0) returned %v, the directory holds %v", got, want)
+			}
+			return ""
+		})
+		res.Nontrivial = res.Evals
+		if bad != "" {
+			res.Findings = append(res.Findings, Finding{Sig: "C15/client-readdir-long-entries/" + sigWords(bad), Msg: bad})
+		}
+		return res
+	}}
+}
+
 func c15Scenarios(tier string) []Scenario {
 	var out []Scenario
 	lens := []int{1, 2, 17, 255}
@@ -604,6 +660,7 @@ func c15Scenarios(tier string) []Scenario {
 		return l
 	}
 	out = append(out, c15Vanishing(3, all(3), 512, true), c15Vanishing(40, all(40), 4120, false))
+	out = append(out, c15ClientLongEntries(8216, true), c15ClientLongEntries(65560, true), c15ClientLongEntries(8216, false))
 	out = append(out, c15UnreadableLink(true, syscall.EACCES), c15UnreadableLink(true, syscall.ENOENT), c15UnreadableLink(false, syscall.EACCES))
 	for lo := 0; lo < 1200; lo += 300 {
 		out = append(out, c15LongTargets(8216, lo, lo+299, true))
